@@ -577,7 +577,12 @@ func (kr *kvRun) gen(r *rand.Rand, ctr *int, useAdd bool) kvOp {
 	if r.Intn(100) < 4 {
 		v := func() string { *ctr++; return fmt.Sprintf("v%d", *ctr) }
 		var pat []kvOp
-		switch r.Intn(5) {
+		switch r.Intn(6) {
+		case 5: // committed value overwritten by one that differs in letter case only, then written back
+			w := v()
+			up := strings.ToUpper(w)
+			pat = []kvOp{{Op: "set", A: a, K: k, V: w}, {Op: "commit"}, {Op: "set", A: a, K: k, V: up}, {Op: "commit"}, {Op: "endtx"}, {Op: "set", A: a, K: k, V: w}, {Op: "commit", Note: "then-reopen"},
+				{Op: "code", A: a, V: "code-" + w}, {Op: "commit"}, {Op: "code", A: a, V: "CODE-" + up}, {Op: "commit"}}
 		case 0: // committed value, deleted, rewritten inside a snapshot, reverted: the deletion must stand
 			pat = []kvOp{{Op: "set", A: a, K: k, V: v()}, {Op: "commit"}, {Op: "set", A: a, K: k, V: "<nil>"}, {Op: "snap"}, {Op: "set", A: a, K: k, V: v()}, {Op: "revert", N: 0}, {Op: "endtx"}, {Op: "commit"}}
 		case 1: // committed empty value, overwritten in the next block
